@@ -201,7 +201,28 @@ func renderAll(e *expr.Expression) []string {
 	}
 }
 
+// every case is preceded by calls on the SAME query text under OTHER options (another default field; none at all): the result of
+// a call is a function of its arguments, so what an earlier call with the same text left behind (a statement or a tree kept
+// under a key that does not hold all the arguments) shows up as a wrong observation of the case itself.
+func prime(q, df string) {
+	if len(q) > 4096 {
+		return // the size ladders measure cost; state kept between calls does not need a giant text to show
+	}
+	defer func() { recover() }()
+	other := "pq"
+	if df != "" {
+		other = "pq_" + df
+		lucene.Parse(q)
+		lucene.ToPostgres(q)
+		lucene.ToParameterizedPostgres(q)
+	}
+	lucene.Parse(q, lucene.WithDefaultField(other))
+	lucene.ToPostgres(q, lucene.WithDefaultField(other))
+	lucene.ToParameterizedPostgres(q, lucene.WithDefaultField(other))
+}
+
 func observeQuery(q, df string) []string {
+	prime(q, df)
 	out := []string{lexTokens(q)}
 	var e *expr.Expression
 	res := guard(func() string {
